@@ -673,6 +673,13 @@ class Producer(object):
                 failure = result
                 result = failure.value.args[0]
                 failed_payloads = failure.value.args[1]
+                if self.req_acks == PRODUCER_ACK_NOT_REQUIRED:
+                    # No responses will ever come: every payload which did not fail has
+                    # been handed to a connection, so its callers must be told now.
+                    failed_t_and_p = {TopicAndPartition(p.topic, p.partition) for p, _ in failed_payloads}
+                    for t_and_p, d_list in deferredsByTopicPart.items():
+                        if t_and_p not in failed_t_and_p:
+                            _deliver_result(d_list, None)
 
         # Do we have results? Iterate over them and if the response indicates
         # success, then callback the associated deferred. If the response
